@@ -29,6 +29,15 @@ type C16Params struct {
 	Mode     string     `json:"mode"`        // loud | loud-or-complete | write-fault
 	Plan     simrt.Plan `json:"plan"`
 	FaultyRa string     `json:"faulty_file,omitempty"`
+	// Pre: commands run first on both worlds (a history); Edit: then applied to the faulted world only
+	Pre  [][]string `json:"pre,omitempty"`
+	Edit *c16Edit   `json:"edit,omitempty"`
+}
+
+type c16Edit struct {
+	Path string `json:"path"`
+	Old  string `json:"old"`
+	New  string `json:"new"`
 }
 
 var c16LineFaults = map[string]string{
@@ -97,6 +106,10 @@ func c16Cells(tier string) []string {
 				cells = append(cells, cl+"|tree+"+which+"|"+cmd)
 			}
 		}
+	}
+	// history: everything is brought up to date, then the rule's id disappears from the rules file (its SecRule line stays)
+	for _, cmd := range []string{"update", "update-all", "compare-gh"} {
+		cells = append(cells, "rule-id-changed-after-update|history|"+cmd)
 	}
 	for _, cl := range c16ArgFaults {
 		for _, cmd := range []string{"generate", "update", "compare", "format", "format-check", "renumber", "renumber-check"} {
@@ -290,6 +303,13 @@ func genC16(t *rapid.T, tier string) (*World, any) {
 		victim = name
 		p.Argv = argv(victim)
 		p.TgtLine = -1
+	case class == "rule-id-changed-after-update":
+		victim = pick(t, []string{"942110", "942120"}, "hvictim")
+		p.Argv = argv(victim)
+		p.CtlArgv = p.Argv
+		p.Pre = [][]string{{"regex", "update", "--all"}}
+		p.Edit = &c16Edit{Path: rulesPath, Old: "id:" + victim, New: "id:" + victim[:5] + "9"}
+		p.TgtLine = secRuleLine[victim]
 	case class == "chain-offset-absent":
 		name := map[string]string{"first": "942100-chain7", "middle": "942110-chain1", "last": "942120-chain1"}[which]
 		if which == "first" {
@@ -430,6 +450,9 @@ func evalC16(sc *Scenario, sim *Sim) ([]Violation, bool, string) {
 	// fault-free control: the same command on the same world without the fault must succeed,
 	// otherwise a failure under the fault says nothing
 	ctl := sim.NewSandbox(p.Control)
+	for _, pre := range p.Pre {
+		ctl.Run(Step{Argv: pre, Cwd: "crs"})
+	}
 	cplan := p.Plan
 	cplan.IOFaults = nil
 	cr := ctl.Run(Step{Argv: p.CtlArgv, Cwd: "crs", Plan: cplan, Stdin: stdinFor(p.Control)})
@@ -447,6 +470,13 @@ func evalC16(sc *Scenario, sim *Sim) ([]Violation, bool, string) {
 	}
 	sb := sim.NewSandbox(sc.World)
 	defer sb.Close()
+	for _, pre := range p.Pre {
+		sb.Run(Step{Argv: pre, Cwd: "crs"})
+	}
+	if p.Edit != nil {
+		data := sb.MustRead(p.Edit.Path)
+		sb.Write(p.Edit.Path, bytes.Replace(data, []byte(p.Edit.Old), []byte(p.Edit.New), 1))
+	}
 	before := sb.Snap()
 	var tgtBefore []byte
 	if p.Target != "" {
